@@ -94,7 +94,13 @@ claim("C09", "error-discipline and merge-discipline checks over every Pattern.Bi
       "with the error propagated; (R09c) the agreement test on repeated names must be extensional (it is String()-based today: known finding). "
       "Which values a pattern matches (index arithmetic over offsets and holes, rest capture) is value-level and not decided.", NOTE, "DESIGN.md §3 C09")
 
-for pid in ["C02","C04","C05","C07","C12","C13"]:
+claim("C04", "symbolic evaluation of the join operators' combine/partitionNames function literals in a 3-region heading algebra over all 8 worlds; constant-folded switch exhaustiveness",
+      "Decides that the two implementations of every join operator agree with each other and with the operator's glyph on the output heading "
+      "(R04a: 8 operators x 8 worlds, isSubset guards evaluated per world, outputs disjoint) and that the positional join's 3-bit mode switch "
+      "handles all 8 modes (R04b). Also served by C01/R01d (rows of two relations only meet under projectors). Row contents, column permutations "
+      "inside the positional joins, nest/unnest inversion and rank values are value-level and not decided.", NOTE, "DESIGN.md §3 C04")
+
+for pid in ["C02","C05","C07","C12","C13"]:
     na(pid, "check under construction in this session (see DESIGN.md §3); not claimed until its rules are registered")
 na("C14", "agreement of a hand-written array matcher with strings/bytes over all sequences is a relation between runtime values computed by "
           "loops with data-dependent indices; no sound structural clause with teeth exists (DESIGN.md §3 C14)")
